@@ -876,10 +876,19 @@ func (pc *PartitionContext) tryPlaceholderAllocate() *objects.AllocationResult {
 	// try allocating from the root down
 	result := pc.root.TryPlaceholderAllocate(pc.GetNodeIterator, pc.GetNode)
 	if result != nil {
+		// the RM event handler runs next to the scheduling cycle: a release of the placeholder, or the removal of the
+		// ask or the application, reverses the replacement and removes the link to the placeholder
+		placeholder := result.Request.GetRelease()
+		if placeholder == nil {
+			log.Log(log.SchedPartition).Info("placeholder replacement was reversed while processing",
+				zap.String("appID", result.Request.GetApplicationID()),
+				zap.String("allocationKey", result.Request.GetAllocationKey()))
+			return nil
+		}
 		log.Log(log.SchedPartition).Info("scheduler replace placeholder processed",
 			zap.String("appID", result.Request.GetApplicationID()),
 			zap.String("allocationKey", result.Request.GetAllocationKey()),
-			zap.String("placeholder released allocationKey", result.Request.GetRelease().GetAllocationKey()))
+			zap.String("placeholder released allocationKey", placeholder.GetAllocationKey()))
 		// the ask is allocated now: a reservation it made earlier must not stay behind
 		if app := pc.getApplication(result.Request.GetApplicationID()); app != nil {
 			if reservedNode := pc.GetNode(app.NodeReservedForAsk(result.Request.GetAllocationKey())); reservedNode != nil {
